@@ -98,6 +98,37 @@ def run(p, led, tier):
                            nontrivial=True)
     led.extra["cells"] = cells
 
+    # ---------------- R1b the same request evaluated again (cache off): the second answer obeys the table and the token
+    # clause for the verdicts of *that* evaluation — nothing is remembered from the first
+    led.rule("C07-R1b", "a request permitted once and evaluated again is judged afresh: blocked unless this evaluation's verdicts permit it; a token only if the assessor permits now", 6)
+    for g in G:
+        probs2, n2 = [], 0
+        for z in alpha + [EXC]:
+            for y in alpha + [EXC]:
+                if z == EXC and y == EXC:
+                    continue
+                try:
+                    paths = explore(lambda o: h.run_once(o, g, False, False, "CLOSED", ("EXECUTE", "PERMIT"), verdict_seq=[("EXECUTE", "PERMIT"), (z, y)]), max_paths=64)
+                except Imprecise as e:
+                    raise AnchorError(f"interpretation of a two-request history is imprecise for ({g},{z},{y}): {e}")
+                for _, out in paths:
+                    n2 += 1
+                    r = out["results"][1]
+                    if r["kind"] == "raise":
+                        probs2.append(f"second evaluation ({z},{y}) raised {r['exc']}")
+                        continue
+                    f = r["fields"]
+                    if f.get("blocked") is False and not may_pass(g, z, y):
+                        probs2.append(f"second evaluation with executor={z} assessor={y} comes back NOT blocked")
+                    if f.get("approval_token") is not None and y != "PERMIT":
+                        probs2.append(f"second evaluation with assessor={y} still carries an approval token (minted for the first evaluation)")
+        key = f"gate={g} ▸ permitted once, evaluated again with every verdict pair"
+        if probs2:
+            led.fail("C07-R1b", key, where(runm, runm.node), sorted(set(probs2))[0], path=sorted(set(probs2))[:6],
+                     witness="gate OR, cache off: 'list files' permitted, then the assessor fails on the same prompt: the reply still carries its token")
+        else:
+            led.ok("C07-R1b", key, where(runm, runm.node), f"{n2} path(s): the second answer follows the table and the token clause of its own verdicts")
+
     # ---------------- R3 token provenance, one permitting cell per gate that can pass with assessor PERMIT
     for g in G:
         key = f"gate={g} ▸ token"
